@@ -122,7 +122,7 @@ func c15Events(fx map[string]sigFixture) []Ev {
 	refs := c15Refs()
 	evs := []Ev{{Name: "block+1s", Block: time.Second}}
 	for ri, r := range refs {
-		for _, v := range []struct{ n, v string }{{"L1", "ipfs://link-one"}, {"L2", "ipfs://link-two"}, {"empty", ""}} {
+		for _, v := range []struct{ n, v string }{{"L1", "ipfs://link-one"}, {"L2", "ipfs://link-two"}, {"empty", ""}, {"L3:", "urn:c4e:doc:"}, {"L4", "urn:c4e:doc"}} {
 			r, v := r, v
 			evs = append(evs, Ev{Name: fmt.Sprintf("publish(ref%d=%s)", ri+1, v.n), Build: func(View) (sdk.Msg, string) {
 				return &sigtypes.MsgPublishReferencePayloadLink{Creator: harness.AddrS("sigA"), Key: sha256hex(r), Value: v.v}, "sigA"
@@ -135,10 +135,14 @@ func c15Events(fx map[string]sigFixture) []Ev {
 	a, b := harness.AddrS("sigA"), harness.AddrS("sigB")
 	keys := []skey{{"SK(a,ref1)", a, refs[0]}, {"SK(a,ref2)", a, refs[1]}, {"SK(b,ref1)", b, refs[0]}}
 	e1, r1, e2 := fx["ecdsa-a-ref1-link1"], fx["rsa-a-ref1-link1"], fx["ecdsa-a-ref1-link2"]
+	e3, e4, e5 := fx["ecdsa-a-ref1-link3"], fx["rsa-a-ref1-link4"], fx["ecdsa-a-ref1-link5"]
 	payloads := []struct{ n, js string }{
 		{"ecdsa(a,ref1,L1)", sigJSON(e1.Signature, e1.Algorithm, e1.CertPEM)},
 		{"rsa(a,ref1,L1)", sigJSON(r1.Signature, r1.Algorithm, r1.CertPEM)},
 		{"ecdsa(a,ref1,L2)", sigJSON(e2.Signature, e2.Algorithm, e2.CertPEM)},
+		{"ecdsa(a,ref1,L3:)", sigJSON(e3.Signature, e3.Algorithm, e3.CertPEM)},
+		{"rsa(a,ref1,L4)", sigJSON(e4.Signature, e4.Algorithm, e4.CertPEM)},
+		{"ecdsa(a,ref1,empty)", sigJSON(e5.Signature, e5.Algorithm, e5.CertPEM)},
 		{"missing-field", `{"signature":"AAAA","algorithm":"ecdsaWithSha256"}`},
 		{"malformed", `{"signature":`},
 	}
@@ -319,6 +323,8 @@ func c15Mutations(rc *RunCtx, fx map[string]sigFixture) (int, int) {
 			mut{bn + ":ref-swapped", f.Signature, f.Algorithm, f.CertPEM, f.Address, other.RefID, f.Link},
 			mut{bn + ":link-swapped", f.Signature, f.Algorithm, f.CertPEM, f.Address, f.RefID, other.Link},
 			mut{bn + ":link-extended", f.Signature, f.Algorithm, f.CertPEM, f.Address, f.RefID, f.Link + "x"},
+			mut{bn + ":link-plus-separator", f.Signature, f.Algorithm, f.CertPEM, f.Address, f.RefID, f.Link + ":"},
+			mut{bn + ":link-emptied", f.Signature, f.Algorithm, f.CertPEM, f.Address, f.RefID, ""},
 		)
 		swapAlg := "sha256WithRsaEncryption"
 		swapCert := fx["rsa-a-ref1-link1"].CertPEM
